@@ -5,6 +5,7 @@ import itertools
 import multiprocessing
 import random
 import re
+import time
 import signal
 
 from .. import gen, scratch
@@ -55,8 +56,12 @@ def check_one(src):
         if off is None or not src.startswith(m.group(1), off):
             return 'message %r: the input at %s:%s does not read %r' % (msg, m.group(2), m.group(3), m.group(1))
         return None
-    for m in MSG_POS.finditer(msg):
+    for nth, m in enumerate(MSG_POS.finditer(msg)):
         q, line, col = m.group(1), int(m.group(2)), int(m.group(3))
+        if nth > 0 and col == 0 and q in ("';'", '";"'):
+            # a neighbour quoted for context that is an inserted semicolon: the library gives such a token the column 0 = "none"
+            # (Lexer._create_semi_token); the statement speaks about the offending text, which is the first token quoted
+            continue
         trunc = q.endswith('...')
         if trunc:
             q = q[:-3]
@@ -135,13 +140,108 @@ def inputs(tier, seed, corpus):
             yield 'var a = 1;' + odd + tail
             yield odd + tail
             yield 'a ' + odd + tail
+    # unterminated literals that repeat a piece a backtracking matcher could split in several ways (30 and 60 repetitions)
+    for piece in ('\\111', '\\0', '\\01', '\\x41', '\\u0041', '\\\n', 'aa', '\\a', '\\12a'):
+        for nrep in (30, 60):
+            for q in ('"', "'"):
+                yield 'x = ' + q + piece * nrep
+                yield q + piece * nrep + '\n' + q
+    for piece in ('\\/', '[/]', '[\\]]', '\\[', 'a*', '(a)', '\\\\'):
+        for nrep in (30, 60):
+            yield 'x = /' + piece * nrep
+            yield 'x = /[' + piece * nrep
+    for nrep in (30, 60):
+        yield '/*' + '*' * nrep
+        yield '/*' + '* /' * nrep
+        yield '0x' + 'f' * nrep + 'g'
+        yield '1' * nrep + 'e'
+        yield '1.' + '1' * nrep + 'e+'
+    # an error next to a semicolon the lexer inserted (restricted productions): the offending token is quoted with its own place
+    for kw in ('return', 'break', 'continue', 'throw'):
+        for head in ('a', '(', 'if', '+', 'x = {'):
+            for lt in ('\n', '\r\n', '\u2028'):
+                yield '%s %s %s' % (head, kw, lt)
+                yield 'q;\n%s %s %s b' % (head, kw, lt)
     yield '/x\ny/ /'
     yield 'a = /x\ny/ )'
     yield '"\\\n" +'
 
 
+def string_pattern_decompositions(lexmod, maxlen=4):
+    """The body of a string literal is `(?: alternative | ... )*?` followed by the closing quote.  If some body can be split into
+    alternatives in more than one way, a string whose closing quote is missing makes the backtracking matcher try every split
+    (k ways per piece => k^n for n pieces: the master pattern never gives up in practice).  Decided here for every body of length
+    <= maxlen over an alphabet that has a member of every class the alternatives distinguish: the number of splits is <= 1.
+    -> (bodies examined, [(quote, body, ways)])  or raises if the pattern has another shape (undecided, not a violation)"""
+    try:
+        import re._parser as sp
+        import re._compiler as sc
+        from re._constants import MAX_REPEAT, MIN_REPEAT, BRANCH, SUBPATTERN
+    except ImportError:             # pragma: no cover  (older interpreters)
+        import sre_parse as sp
+        import sre_compile as sc
+        from sre_constants import MAX_REPEAT, MIN_REPEAT, BRANCH, SUBPATTERN
+    parsed = sp.parse(lexmod.Lexer.string, re.VERBOSE)
+    reps = []
+
+    def walk(sub):
+        for op, av in sub:
+            if op in (MAX_REPEAT, MIN_REPEAT):
+                body = av[2]
+                inner = body
+                while len(inner) == 1 and inner[0][0] is SUBPATTERN:
+                    inner = inner[0][1][3]
+                if len(inner) == 1 and inner[0][0] is BRANCH:
+                    reps.append(inner[0][1][1])
+                walk(body)
+            elif op is BRANCH:
+                for b in av[1]:
+                    walk(b)
+            elif op is SUBPATTERN:
+                walk(av[3])
+    walk(parsed)
+    reps = [r for r in reps if len(r) >= 4]
+    if len(reps) != 2:
+        raise ValueError('expected the two repeated groups of alternatives (double / single quoted), found %d' % len(reps))
+    alpha = ['\\', '0', '1', '7', '8', 'a', 'x', 'u', 'f', 'F', '"', "'", '\n', '\r', '\u2028', '-', ' ']
+    bad, n = [], 0
+    for quote, alts in zip('"\'', reps):
+        compiled = [sc.compile(a, re.VERBOSE) for a in alts]
+        for L in range(1, maxlen + 1):
+            for tup in itertools.product(alpha, repeat=L):
+                body = ''.join(tup)
+                n += 1
+                ways = [1] + [0] * L
+                for i in range(L):
+                    if not ways[i]:
+                        continue
+                    for c in compiled:
+                        for e in range(i + 1, L + 1):
+                            if c.fullmatch(body, i, e):
+                                ways[e] += ways[i]
+                if ways[L] > 1:
+                    bad.append((quote, body, ways[L]))
+    return n, bad
+
+
 def main(run, tier):
     es5 = importlib.import_module('calmjs.parse.parsers.es5')
+    # ---- the string pattern matches every string body in one way only (no exponential backtracking on an unterminated string)
+    try:
+        t0 = time.time()
+        n_bodies, amb = string_pattern_decompositions(importlib.import_module('calmjs.parse.lexers.es5'))
+        if amb:
+            q, body, ways = min(amb, key=lambda x: (len(x[1]), x[1]))
+            src = 'x = ' + q + body * 12
+            why = ('the string body %r splits into the pattern\'s alternatives in %d ways (%d ambiguous bodies of length <= 4): an '
+                   'unterminated string repeating it makes the lexer try %d^n splits' % (body, ways, len(amb), ways))
+            run.failed('lex.string_pattern_unambiguous', 'E3/charclass', repr(body), dict(source=src, body=body, ways=ways, problem=why),
+                       observed=why, required='every string body matches the alternatives of the pattern in exactly one way', replayed=True)
+        else:
+            run.discharged('lex.string_pattern_unambiguous', 'E3/charclass', 'exhaustive', (time.time() - t0) * 1000,
+                           detail='%d string bodies of length <= 4 over 17 class representatives x both quotes: at most one split into alternatives' % n_bodies)
+    except Exception as e:      # another shape of pattern: undecided
+        run.undecided('lex.string_pattern_unambiguous', 'E3/charclass', 'pattern shape not recognised: %r' % (e,))
     run.explanation = ('exception freedom / termination of the lexing and parsing code is checked by a bounded stand-in only '
                        '(exhaustive short strings over a lexical alphabet, truncations and corruptions of generated programs, '
                        'long repetitive inputs, per-parse time limit); E1 safety contracts cover the error-path helpers that are '
